@@ -13,7 +13,7 @@ WRITE_WIDTH = {"write_two": 2, "write_one": 1, "write_year": 4}
 def run(chk, tier):
     P = Prog("default")
     chk.configs.add("default")
-    for r in (r_numeric, r_setters, r_fixed, r_names, r_flow, r_whitespace, r_sign_arms, r_own_ranges):
+    for r in (r_numeric, r_setters, r_fixed, r_names, r_flow, r_whitespace, r_sign_arms, r_own_ranges, r_ampm, r_long_names):
         chk.guarded(r, P, tier)
     chk.guarded(c12.r_numeric_writers, P, tier)
     chk.assume("the round trip itself (for any value), white-space and letter-case perturbations are NOT decided; only that reader and writer agree item by item on width, sign and field")
@@ -187,3 +187,37 @@ def r_own_ranges(chk, P, tier):
         missing = allowed.get(fn, set()) - got
         chk.expect(not extra and not missing, fn.split("::")[-1], "%s rejects scanned values on its own: %s (allowed: %s)%s" % (fn, sorted(extra), sorted(allowed.get(fn, set())),
                    "; expected rejection missing: %s" % sorted(missing) if missing else ""), loc=P.loc(fn))
+
+
+def r_ampm(chk, P, tier):
+    """%p and %P differ in letter case only: both arms of format_fixed pick the AM/PM string by the same test, the flag of hour12() (which is what the
+    reader's hour_div_12 is combined with)"""
+    chk.rule("SIB.ampm", "every AM/PM arm of format_fixed selects the string by hour12().0, the same test in all arms", floor=2)
+    fn = "format::formatting::DelayedFormat::<I>::format_fixed"
+    sel = {}
+    n = 0
+    for p_ in Sym(P, fn).paths(max_paths=20000):
+        if not any(isinstance(c[1], str) and c[1].split("::")[-1] == "am_pm" for c in p_.calls):
+            continue
+        n += 1
+        for c in p_.conds:
+            if c[0][0] == "switch" and any(is_call(x) and str(x[1]).split("::")[-1] in ("hour", "hour12", "hour24") for x in walk_terms(c[1])):
+                sel[pp(c[1])] = sel.get(pp(c[1]), 0) + 1
+    if n < 2:
+        raise AnchorLost("format_fixed: %d AM/PM paths" % n)
+    ok = len(sel) == 1 and all(t.startswith("hour12(") and t.endswith(".0") for t in sel)
+    chk.expect(ok, "selector", "the AM/PM arms of format_fixed select by %s (expected the single test hour12().0)" % sorted(t[:60] for t in sel), loc=P.loc(fn))
+    chk.ok("%d AM/PM paths" % n)
+
+
+def r_long_names(chk, P, tier):
+    """the long-name scanners for months and weekdays are siblings: after the short name both compare the suffix the same way (length test, then
+    ASCII-case-insensitive equality)"""
+    chk.rule("SIB.long_names", "short_or_long_month0 and short_or_long_weekday match the long-name suffix through the same calls (len guard + eq_ignore_ascii_case)", floor=2)
+    a, b = "format::scan::short_or_long_month0", "format::scan::short_or_long_weekday"
+
+    def sig(fn):
+        return sorted(c.split("::")[-1] for c in callees(P, fn) if c.split("::")[-1] not in ("short_month0", "short_weekday", "num_days_from_monday", "branch", "from_residual"))
+    sa, sb = sig(a), sig(b)
+    chk.expect(sa == sb, "same calls", "the two long-name scanners differ: month uses %s, weekday uses %s" % (sa, sb), loc=P.loc(b))
+    chk.expect("eq_ignore_ascii_case" in sa and "len" in sa, "case-insensitive with length guard", "long-name suffix comparison is %s (expected len guard + eq_ignore_ascii_case: the writer's case is not the only accepted one)" % sa, loc=P.loc(a))
